@@ -710,6 +710,11 @@ func genReqs(r *rand.Rand, counts []int, nprocs, maxReq int) []Req {
 			if rq.Proc != 0 && rq.N > 12 {
 				rq.N = 1 + r.Intn(4)
 			}
+			if rq.Proc == 1 {
+				// "db" is a dependency of the main process: a project in which it has replicas is rejected by the
+				// loader (finding F18, properties C07/C01), so there is no reference to compare with
+				rq.N = 1
+			}
 		}
 		reqs = append(reqs, rq)
 	}
